@@ -53,8 +53,8 @@ def _overlap_conds(tier):
                 ("start,stop,start", 12, 6, -1, 0, False), ("runto,stop,start", 12, 6, 1, 0, False)]
     # a run thread that makes no progress while the middle command (a stop) completes: the stop gives up after its one-second
     # wait and the simulator is left in STOPPING with the run thread still busy; the last command overlaps that
-    stalled = [("start,stop,runto", 12, 1, 2)] if q else [("start,stop,runto", 12, -1, -1), ("runto,stop,start", 12, -1, -1),
-                                                          ("start,stop,start", 12, -1, 0), ("runto,stop,runtoi", 12, -1, 0)]
+    stalled = [("start,stop,runto", 12, 1, 2)] if q else [("start,stop,runto", 12, -1, 2), ("runto,stop,start", 12, -1, 2),
+                                                          ("start,stop,start", 12, -1, 0), ("runto,stop,runtoi", 12, 1, 2)]
     for sc, pmax, arg, warm in stalled:
         for lo, hi in ((0, 10), (11, 21), (22, 32), (33, 43), (44, 54), (55, 65), (66, 74)):
             # richer model here (events at 1, 2, 2, replication 0..3: the run thread executes 74 statements): a bound that is
